@@ -18,6 +18,8 @@ PROPS["C07"] = dict(
         "Zrnt.Proofs.C07.proposer_empty",
         "Zrnt.Proofs.C07.proposers_eq_spec_partial",
         "Zrnt.Proofs.C07.syncIndices_eq_spec_partial",
+        "Zrnt.Proofs.C07.proposer_eq_spec",
+        "Zrnt.Proofs.C07.syncIndices_eq_spec",
         "Zrnt.Proofs.C07.newEpochsContext_ok",
         "Zrnt.Proofs.C07.ctx_getEpochComms",
         "Zrnt.Proofs.C07.ctx_committee_eq_spec",
